@@ -637,24 +637,26 @@ _dispatch_transform_from_base32_with_table(dispatch_data_t data,
 				*ptr++ = (x >> 16) & 0xff;
 				*ptr++ = (x >> 8) & 0xff;
 				*ptr++ = x & 0xff;
+				// drop the bytes the padding of this group stands for
+				switch (pad) {
+				case 1:
+					ptr -= 1;
+					break;
+				case 3:
+					ptr -= 2;
+					break;
+				case 4:
+					ptr -= 3;
+					break;
+				case 6:
+					ptr -= 4;
+					break;
+				}
+				pad = 0;
 			}
 		}
 
 		size_t final = (size_t)(ptr - dest);
-		switch (pad) {
-		case 1:
-			final -= 1;
-			break;
-		case 3:
-			final -= 2;
-			break;
-		case 4:
-			final -= 3;
-			break;
-		case 6:
-			final -= 4;
-			break;
-		}
 
 		dispatch_data_t val = dispatch_data_create(dest, final, NULL,
 				DISPATCH_DATA_DESTRUCTOR_FREE);
